@@ -157,19 +157,41 @@ package openapi3
 //@  && (forall k string :: has(o, k) ==> propOK(s, k, o[k]))
 //@  && (forall j int :: 0 <= j && j < len(s.Required) ==> has(o, s.Required[j]))
 
+// request / response mode (C06, C08): a readOnly property must not be sent in a request and need not
+// be present even if required; symmetrically writeOnly in a response; the two option flags switch
+// off only the "must not be sent" half. (The code reads "sent" as "present with a non-null value".)
+//@ spec forbiddenProp(s *Schema, st *schemaValidationSettings, k string) bool :=
+//@     s.Properties[k] != nil && ((st.asreq && s.Properties[k].Value.ReadOnly && !st.readOnlyValidationDisabled) || (st.asrep && s.Properties[k].Value.WriteOnly && !st.writeOnlyValidationDisabled))
+//@ spec exemptProp(s *Schema, st *schemaValidationSettings, k string) bool opaque :=
+//@     s.Properties[k] != nil && ((st.asreq && s.Properties[k].Value.ReadOnly) || (st.asrep && s.Properties[k].Value.WriteOnly))
+//@ spec modeOK(s *Schema, st *schemaValidationSettings, o map[string]any) bool opaque :=
+//@     (st.asreq || st.asrep) ==> (forall k string :: forbiddenProp(s, st, k) ==> o[k] == nil)
+//@ spec validObjectIn(s *Schema, st *schemaValidationSettings, o map[string]any) bool :=
+//@     permits(s.Type, "object")
+//@  && modeOK(s, st, o)
+//@  && propsSizeOK(s, len(o))
+//@  && (forall k string :: has(o, k) ==> propOK(s, k, o[k]))
+//@  && (forall j int :: 0 <= j && j < len(s.Required) ==> has(o, s.Required[j]) || exemptProp(s, st, s.Required[j]))
+
 //@ spec resolvedProps(s *Schema) bool opaque := forall k string :: s.Properties[k] != nil ==> s.Properties[k].Value != nil
 //@ func (*Schema).visitJSONObject
 //@   requires schema != nil && settings != nil && wfDeep(schema)
-//@   assuming !settings.asreq && !settings.asrep
+//@   assuming @C01 !settings.asreq && !settings.asrep
+//@   assuming settings.defaultsSet == nil
 //@   assuming resolvedProps(schema)
 //@   assuming schema.AdditionalProperties.Schema != nil ==> schema.AdditionalProperties.Schema.Value != nil
 //@   modifies nothing
+//@   loop 0 invariant seenset() == keys(properties) && fresh(properties)
+//@   loop 1 invariant fresh(properties) && (forall k string :: keys(properties)[k] <==> has(schema.Properties, k))
+//@   loop 1 invariant (len(me) == 0) <==> (forall k string :: keysPrefix(properties, #i)[k] && forbiddenProp(schema, settings, k) ==> value[k] == nil)
 //@   loop 2 invariant seenset() == keys(keys) && fresh(keys)
-//@   loop 3 invariant !settings.multiError ==> len(me) == 0
-//@   loop 3 invariant (len(me) == 0) <==> (propsSizeOK(schema, len(value)) && (forall k string :: keysPrefix(keys, #i)[k] ==> propOK(schema, k, value[k])))
-//@   loop 4 invariant !settings.multiError ==> len(me) == 0
-//@   loop 4 invariant (len(me) == 0) <==> (propsSizeOK(schema, len(value)) && (forall k string :: has(value, k) ==> propOK(schema, k, value[k])) && (forall j int :: 0 <= j && j < #i ==> has(value, schema.Required[j])))
-//@   ensures [verdict] (result == nil) <==> validObject(schema, value)
+//@   loop 3 invariant !settings.multiError ==> ((len(me) == 0) <==> modeOK(schema, settings, value))
+//@   loop 3 invariant (len(me) == 0) <==> (modeOK(schema, settings, value) && propsSizeOK(schema, len(value)) && (forall k string :: keysPrefix(keys, #i)[k] ==> propOK(schema, k, value[k])))
+//@   loop 4 invariant !settings.multiError ==> ((len(me) == 0) <==> modeOK(schema, settings, value))
+//@   loop 4 invariant (len(me) == 0) ==> (modeOK(schema, settings, value) && propsSizeOK(schema, len(value)) && (forall k string :: has(value, k) ==> propOK(schema, k, value[k])))
+//@   loop 4 invariant (len(me) == 0) ==> (forall j int :: 0 <= j && j < #i ==> has(value, schema.Required[j]) || exemptProp(schema, settings, schema.Required[j]))
+//@   loop 4 invariant (modeOK(schema, settings, value) && propsSizeOK(schema, len(value)) && (forall k string :: has(value, k) ==> propOK(schema, k, value[k])) && (forall j int :: 0 <= j && j < #i ==> has(value, schema.Required[j]) || exemptProp(schema, settings, schema.Required[j]))) ==> len(me) == 0
+//@   ensures [verdict] (result == nil) <==> validObjectIn(schema, settings, value)
 //@   ensures [nonempty-multi] typeof(result) == type MultiError ==> len(result.(MultiError)) > 0
 //@   tag C01 C10 C12
 
